@@ -32,9 +32,9 @@ REACH_PROBES = ('percent_name', 'unicode_name', 'keyword_like_name', 'name_adjac
                 'name_adjacent_to_number', 'fault_then_judged', 'same_text_again', 'unclosed_percent', 'deferred_result_consumed_later', 'inner_blank_names')
 IMPLICIT = {'list', 'dict', '__getitem__', '__setitem__', '__delitem__', '__setitem_with_op__'}
 
-PLAIN = ['a', 'b2', '_x', 'x_1', 'if_', 'True_', 'not_in', 'in1', 'orx', 'andy', 'nota', 'delta', 'elsewhere', 'forx', 'r', 'rr',
+PLAIN = ['\u2126', '\u212bx', '\ufb01x', 'a', 'b2', '_x', 'x_1', 'if_', 'True_', 'not_in', 'in1', 'orx', 'andy', 'nota', 'delta', 'elsewhere', 'forx', 'r', 'rr',
          'Ünï', 'имя', '变量', 'é', 'None_', 'defx', 'e1', 'len', 'map', 'f']
-PERCENT = ['%unit price%', '%unit  price%', '%my var%', '%a.b%', '%x+y%', '%if%', '%"q"%', "%it's%", '% %', '%1%', '%a b.c-d%', '%#no comment%', '%for x%', '%%']
+PERCENT = ['%e\u0301t\u00e9%', '%unit price%', '%unit  price%', '%my var%', '%a.b%', '%x+y%', '%if%', '%"q"%', "%it's%", '% %', '%1%', '%a b.c-d%', '%#no comment%', '%for x%', '%%']
 KEYWORDS = ['and', 'or', 'in', 'not', 'if', 'else', 'True', 'False', 'None', 'del', 'for', 'while', 'break', 'continue', 'def', 'raise', 'elif']
 STRINGS = ['"""x"""', '"abc"', "'x y'", '"a + b"', 'r"raw\\d"', "r'%v%'", '"%pct%"', '"it\'s"', '"#nocomment"', '""', '"if x"']
 NUMBERS = ['1', '42', '3.14', '007', '10.0']
@@ -123,7 +123,7 @@ def _soup(r, probes):
 
 
 def _program(r, probes):
-    names = r.sample(PLAIN[:16] + PERCENT[:8], 5)
+    names = r.sample(PLAIN[:19] + PERCENT[:9], 5)
     env = {names[0]: 'num', names[1]: 'list', names[2]: 'str', names[3]: 'dict', names[4]: 'num'}
     g = ProgGen(r, env, max_depth=r.choice([1, 2, 3]), illtyped=0.03)
     prog = g.program(n_stmts=r.choice([1, 2, 3]))
